@@ -55,6 +55,9 @@ type C13Scenario struct {
 	// refuses (554) after accepting MAIL and RCPT: their call fails, their clean-up stays on
 	// their own connection, nobody else notices.
 	RefuseData []int `json:"refuseData,omitempty"`
+	// Fallback: the Client has a fallback port (WithTLSPortPolicy(TLSOpportunistic): 587, then
+	// 25) and the primary port cannot be reached: every dial goes through the fallback.
+	Fallback bool `json:"fallback,omitempty"`
 }
 
 type c13 struct{}
@@ -114,6 +117,7 @@ func (p *c13) Gen(seed uint64, i int, tier string) (any, bool) {
 			sc.RefuseData = append(sc.RefuseData, r.Intn(sc.N))
 		}
 	}
+	sc.Fallback = r.Chance(1, 6)
 	return sc, true
 }
 
@@ -133,11 +137,14 @@ type c13Slot struct {
 
 // c13Net is a dial function whose shared state is a pre-sized array indexed by a counter that is
 // only touched in //go:norace code (execution is serialised by the kernel).
+var errRefused = fmt.Errorf("connection refused")
+
 type c13Net struct {
-	k     *sim.Kernel
-	srv   *refsmtpd.Server
-	pipes []*sim.Pipe
-	n     int
+	failPrimary bool
+	k           *sim.Kernel
+	srv         *refsmtpd.Server
+	pipes       []*sim.Pipe
+	n           int
 }
 
 //go:norace
@@ -150,6 +157,11 @@ func (e *c13Net) next() int {
 func (e *c13Net) put(i int, p *sim.Pipe) { e.pipes[i-1] = p }
 
 func (e *c13Net) Dial(ctx context.Context, network, addr string) (net.Conn, error) {
+	if e.failPrimary && strings.HasSuffix(addr, ":587") {
+		// the submission port cannot be reached (the refusal takes a moment to arrive)
+		e.k.Yield(sim.PtOther)
+		return nil, &net.OpError{Op: "dial", Net: network, Err: errRefused}
+	}
 	id := e.next()
 	p := sim.NewPipe(e.k, id, sim.ConnFaults{SegMode: 1, MaxSeg: 200})
 	e.put(id, p)
@@ -264,7 +276,10 @@ func (p *c13) Exec(t *testing.T, scAny any) Outcome {
 				scfg.Rules = append(scfg.Rules, refsmtpd.Rule{Verb: "DATA", FromContains: fmt.Sprintf("sender-g%d@", i), Action: refsmtpd.Action{ResetNext: true}})
 			}
 		}
-		env = &c13Net{k: k, srv: refsmtpd.New(k, scfg, TLSMat), pipes: make([]*sim.Pipe, sc.N+2)}
+		env = &c13Net{k: k, srv: refsmtpd.New(k, scfg, TLSMat), pipes: make([]*sim.Pipe, sc.N+2), failPrimary: sc.Fallback}
+		if sc.Fallback {
+			ccfg.TLSPolicy, ccfg.FallbackPort = "opportunistic", true
+		}
 		return func() {
 			c, err := BuildClient(ccfg, env.Dial, nil)
 			if err != nil {
